@@ -149,6 +149,15 @@ def run(ctx, tier):
             for n in recv:
                 if n[0] == 'index' and all(c[0] == 'field' and c[2] == 'subspaces' and all(q[0] == 'param' and q[1] == 1 for q in c[1]) for c in n[1]):
                     I = n[2]
+                elif n[0] == 'field' and n[2] == '1' and len(n[1]) == 1 and next(iter(n[1]))[0] == 'unwrap':
+                    # `for (i, subspace) in self.subspaces.iter().enumerate()`: element i of self.subspaces, index = E.0
+                    base_ = P.enumerate_base(n[1])
+                    u_ = next(iter(n[1]))
+                    nx_ = next(iter(u_[1])) if len(u_[1]) == 1 else None
+                    direct = nx_ is not None and nx_[0] == 'call' and len(nx_[2][0]) == 1 and \
+                        next(iter(nx_[2][0]))[1] == 'std::iter::Iterator::enumerate'
+                    if base_ is not None and direct and all(c[0] == 'field' and c[2] == 'subspaces' for c in base_):
+                        I = ('enum', T(('field', n[1], '0')))
                 elif n[0] == 'unwrap':
                     # `for subspace in &self.subspaces`
                     src = P.iter_source(T(n))
@@ -185,7 +194,9 @@ def run(ctx, tier):
                         else:
                             probs.append('argument %d is not the component zipped with its subspace' % j)
                 continue
-            if I != 'iter':
+            if isinstance(I, tuple) and I[0] == 'enum':
+                I = I[1]            # whole-collection enumerate: covers 0..len by construction
+            elif I != 'iter':
                 src = P.iter_source(I)
                 okr = False
                 if src is not None and len(src) == 1:
